@@ -112,7 +112,11 @@ struct GenState {
       BreakPoint bp = this->out.line_info[this->getNextPos() - 1];
       this->out.line_info.erase(
           this->out.line_info.find(this->getNextPos() - 1));
-      this->out.potential_breaks.erase(this->out.potential_breaks.find(bp));
+      // remove only this site: the line may own earlier sites that stay in
+      // the code (the top site is the last one recorded for its line)
+      auto sites = this->out.potential_breaks.find(bp);
+      sites->second.pop_back();
+      if (sites->second.empty()) this->out.potential_breaks.erase(sites);
       out.code.pop_back();
     }
   }
